@@ -24,7 +24,7 @@ RULE = (
     "case (sync, async, sync method, async method; limit 1..4; expiration none/1/2.5/4), over an argument alphabet with "
     "==-equal differently typed values (1, 1.0, True, '1', ...), positional/keyword forms and 3 receiver slots; short "
     "histories over 3 keys + 2 advances are enumerated (quick: length<=4 for 16 configurations and <=5 for limit 2 without expiry, "
-    "thorough: length<=6 for all 64); non-trivial = history with a hit and an eviction or expiry; distinct = distinct configuration+history"
+    "thorough: length<=6 for all 64); for limits 3 and 4 every call history over limit+1 unequal keys up to renaming (<=7 calls quick, <=8/9 thorough); non-trivial = history with a hit and an eviction or expiry; distinct = distinct configuration+history"
 )
 LEVEL_TEXT = (
     "Model-based history testing: every call's result is checked against predicates over the observed history (the tag "
